@@ -47,6 +47,9 @@ pub const SITE_NOW: u16 = 16;
 pub const SITE_BACKOFF: u16 = 17;
 /// start of a hand-off / termination of a waiter (may be inside the channel lock)
 pub const SITE_WAKE_ENTRY: u16 = 18;
+/// a task waker is about to be stored in a signal (must be inside the channel lock
+/// whenever the signal is already listed)
+pub const SITE_REGISTER_WAKER: u16 = 19;
 
 /// A scheduling point: the verification model may run other logical threads
 /// here.  No-op in this pass-through version.
